@@ -62,7 +62,7 @@ mod vharness {
     }
     fn any_a() -> Option<V> { let k: u8 = kani::any(); kani::assume(k < 4); match k { 0 => None, 1 => Some(V::Default), 2 => Some(V::Hidden), _ => Some(V::ForceVisible) } }
 
-    //@harness props=C07,C01 strength=proof clause="std.objectRemoveKey(o, k) for a key that names a field of o, WHATEVER its visibility (:, :: or :::): the result is the object-without-the-field built by object_with_field_removed(o, k) - a hidden field is removed like any other, so afterwards the field does not exist for objectHasAll / in / super" replay=rmkey
+    //@harness props=C07,C01 quickfor=C07 strength=proof clause="std.objectRemoveKey(o, k) for a key that names a field of o, WHATEVER its visibility (:, :: or :::): the result is the object-without-the-field built by object_with_field_removed(o, k) - a hidden field is removed like any other, so afterwards the field does not exist for objectHasAll / in / super" replay=rmkey
     #[kani::proof]
     #[kani::unwind(4)]
     fn remove_key_existing_field_any_visibility() {
@@ -71,7 +71,7 @@ mod vharness {
         assert!(!same && removed == Some(1) && a_after.is_none(), "C07:rmkey:an-existing-field-is-removed-whatever-its-visibility");
     }
 
-    //@harness props=C07,C01 strength=proof clause="std.objectRemoveKey(o, k) for a key o does not have: the result has the same fields as o (the original object, or a copy from which nothing of o's was removed); a key that was never interned can be in no object and yields o itself" replay=rmkey
+    //@harness props=C07,C01 quickfor=C07 strength=proof clause="std.objectRemoveKey(o, k) for a key o does not have: the result has the same fields as o (the original object, or a copy from which nothing of o's was removed); a key that was never interned can be in no object and yields o itself" replay=rmkey
     #[kani::proof]
     #[kani::unwind(4)]
     fn remove_key_absent_field_changes_nothing() {
